@@ -1,0 +1,9 @@
+//go:build verif
+// +build verif
+
+package gobeansdb
+
+import "github.com/douban/gobeansdb/store"
+
+// VerifNewStorageClient builds the storage client the memcache server uses, over a given store.
+func VerifNewStorageClient(h *store.HStore) *StorageClient { return &StorageClient{h} }
